@@ -20,6 +20,7 @@ import (
 	"fmt"
 	"os"
 	"path/filepath"
+	"time"
 )
 
 type meta struct {
@@ -88,6 +89,11 @@ func main() {
 					os.WriteFile(marker, nil, 0o644)
 					os.Exit(1)
 				}
+			}
+		}
+		if dir != "" {
+			if _, err := os.Stat(filepath.Join(dir, "slowmode")); err == nil {
+				time.Sleep(80 * time.Millisecond) // a converter that takes its time (real time: only used by the C09 conversion storm)
 			}
 		}
 		garble := -1
